@@ -198,6 +198,8 @@ def dedup(log):
 def run_win(c):
   import audiolazy
   name, size, alpha = c["name"], c["size"], alpha_value(c["alpha"])
+  if c.get("size_bool"):
+    size = bool(size)        # True == 1: xrange(True), True == 1 in the special case, True + 1 == 2
   coslog, sinlog = [], []
   w = call_recorded(audiolazy.window, name, size, alpha, coslog, sinlog)
   s = call_recorded(audiolazy.wsymm, name, size + 1, alpha, coslog, sinlog)
@@ -289,6 +291,7 @@ def gen_win(tier, rng):
       for size in (1, 2, 5, 8):
         yield {"name": al, "size": size, "alpha": None, "tags": ["alias", "name=" + p]}
     yield {"name": p, "size": -1, "alpha": None, "tags": ["negative-size"]}
+    yield {"name": p, "size": 1, "size_bool": True, "alpha": None, "tags": ["bool-size"]}
     if not has_alpha:
       yield {"name": p, "size": 4, "alpha": ["int", 1], "tags": ["unexpected-alpha"]}
   for bogus in ("hamm", "symm", "periodic"):
@@ -477,6 +480,20 @@ def gen_hist_params(tier, rng):
           steps.append(["call", "window", nm, size, None, "pos"])
           steps.append(["call", "wsymm", nm, size + 1, None, "pos"])
         yield {"steps": steps[:8], "tags": ["aliases-interleaved", "name=" + p]}
+    # a refused call (ZeroDivisionError for a negative power of 0, TypeError for an unexpected / unusable argument)
+    # must leave the strategy as it was: keep using it afterwards
+    if has_alpha:
+      bad = ["int", -1]
+      yield {"steps": [["call", "window", p, 6, bad, "pos"], ["call", "window", p, 6, None, "pos"],
+                       ["call", "window", p, 6, bad, "kw"], ["call", "window", p, 6, ["int", 2], "kw"],
+                       ["call", "wsymm", p, 7, bad, "kw"], ["call", "wsymm", p, 7, ["int", 2], "pos"],
+                       ["call", "wsymm", p, 7, None, "pos"]],
+             "tags": ["error-then-use", "name=" + p]}
+    else:
+      yield {"steps": [["call", "window", p, 6, None, "pos"], ["call", "window", p, 6, ["int", 1], "pos"],
+                       ["call", "window", p, 6, None, "pos"], ["call", "wsymm", p, 7, ["int", 1], "kw"],
+                       ["call", "wsymm", p, 7, None, "pos"]],
+             "tags": ["error-then-use", "name=" + p]}
     # same strategy, shorter then longer then shorter again
     yield {"steps": [["call", "window", p, 4, None, "pos"], ["call", "window", p, 9, None, "pos"],
                      ["call", "window", p, 4, None, "pos"], ["call", "wsymm", p, 5, None, "pos"],
@@ -574,11 +591,22 @@ DOC = {"hann": "doc_hann", "hamming": "doc_hamming", "rect": "doc_rect", "bartle
 def has_pow(t):
   if t[0] == "bin" and t[1] == "Bpow":
     return True
-  return any(has_pow(x) for x in t[1:] if isinstance(x, tuple))
+  return any(has_pow(x) for x in t[1:] if isinstance(x, (tuple, list)))
+
+
+BIG_SIZES = [96, 97, 128, 129, 200, 201, 255, 256]
+
+
+def pick_ns(size):
+  return sorted(set(n for n in (0, 1, size // 3, size // 2, size - 1) if 0 <= n < size))
 
 
 def encl_cases(tier, rng):
-  """(name, symm, size, alpha, n): sample n of window[name](size) or wsymm[name](size)"""
+  """(name, symm, size, alpha, n): sample n of window[name](size) or wsymm[name](size).
+  quick: per strategy and dictionary sizes 1, 2, two odd and two even sizes <= 64, one odd and one even size up to
+  256 (seeded), a few n each; widened (quick, but something no longer checks): every size 1..64 and BIG_SIZES, default
+  alpha, 5 positions each; thorough: every n of every size <= 32, 5 positions of every size 33..64 and of BIG_SIZES,
+  the other alphas on a third of the sizes <= 32."""
   d = TABLE["data"]
   if d is None:
     return []
@@ -589,16 +617,24 @@ def encl_cases(tier, rng):
     for symm in (False, True):
       if symm and not r["distinct"]:
         continue
-      for size in range(1, 65):
-        for ai, a in enumerate(alphas):
-          if tier != "quick" and ((ai > 0 and (size % 3 != ai % 3 or size > 32)) or (size > 32 and size % 4)):
-            continue      # thorough: every size <= 32 (and every 4th up to 64) with the default alpha,
-                          # a third of the sizes <= 32 per other alpha
-          for n in range(size):
-            combos.append((p, symm, size, a, n))
-  if tier == "quick":
-    combos = rng.sample(combos, min(250, len(combos)))
-    combos.sort(key=lambda c: (c[0], c[1], c[2], str(c[3]), c[4]))
+      if tier == "quick":
+        sizes = [1, 2] + rng.sample(range(3, 65, 2), 2) + rng.sample(range(4, 65, 2), 2) + \
+                [rng.randrange(65, 256, 2), rng.randrange(66, 257, 2)]
+        for size in sizes:
+          a = rng.choice(alphas)
+          ns = pick_ns(size)
+          ns = set(rng.sample(ns, min(2, len(ns))) + [rng.randrange(size)])
+          combos += [(p, symm, size, a, n) for n in sorted(ns)]
+      elif tier == "widened":
+        for size in list(range(1, 65)) + BIG_SIZES:
+          combos += [(p, symm, size, None, n) for n in pick_ns(size)]
+      else:
+        for size in list(range(1, 65)) + BIG_SIZES:
+          for ai, a in enumerate(alphas):
+            if ai > 0 and (size % 3 != ai % 3 or size > 32):
+              continue
+            ns = range(size) if size <= 32 else pick_ns(size)
+            combos += [(p, symm, size, a, n) for n in ns]
   return combos
 
 
@@ -617,7 +653,9 @@ def extra(chk, tier, rng):
   t0 = time.time()
   skipped = 0
   def fresh_samples():
-    for p, symm, size, a, n in encl_cases(tier, rng):
+    # when something no longer checks (broken proof / tie / translator), look for a concrete sample everywhere
+    mode = "widened" if (tier == "quick" and (chk.broken or chk.violations)) else tier
+    for p, symm, size, a, n in encl_cases(mode, rng):
       sd = audiolazy.wsymm if symm else audiolazy.window
       key = (p, symm, size, json.dumps(a))
       if key not in cache:
